@@ -140,9 +140,39 @@ def _viol(kind_v, cls, src, start, i, text):
         {'cls': cls, 'source': src, 'start': start, 'count': i + 1}, weight=(0, i))
 
 
+def sibling_wrap(ca, cb):
+    """Server A issues one id, a sibling instance B issues 2^24 - 1 ids, A issues its second id: with a constant random
+    source A's two consecutive ids must still differ (no state shared between instances)."""
+    out = []
+    a, b = _make_server(ca), _make_server(cb)
+    src = Source('zero')
+    orig = (secrets.token_bytes, os.urandom)
+    secrets.token_bytes = src.token_bytes
+    os.urandom = src.urandom
+    try:
+        src.got = []
+        first = a.generate_id()
+        gen = b.generate_id
+        for _ in range(WRAP - 1):
+            gen()
+        src.got = []
+        second = a.generate_id()
+        if first == second:
+            out.append(_viol('duplicate_id', 'two', 'zero', 0, 1,
+                             'a %s server issued %r twice in a row while a sibling %s instance issued 2^24-1 ids in between '
+                             '(state shared between instances)' % (ca, first, cb)))
+    finally:
+        secrets.token_bytes, os.urandom = orig
+    return out, {'issued': WRAP + 1, 'skipped': 0, 'min_bytes': None}
+
+
 def _work(chunk):
     res = []
     for (cls, kind, start, count, exact) in chunk:
+        if cls.startswith('sibling:'):
+            out, st = sibling_wrap(*cls.split(':')[1:])
+            res.append(([v.to_json() for v in out], st, (cls, kind, start, count, exact)))
+            continue
         out, st = run_window(cls, kind, start, count, exact)
         res.append(([v.to_json() for v in out], st, (cls, kind, start, count, exact)))
     return res
@@ -167,9 +197,10 @@ def two_instances(out):
                 break
             sa.add(x)
             sb.add(y)
+        n = 0
     finally:
         secrets.token_bytes, os.urandom = orig
-    return 2 << 12
+    return (2 << 12) + n
 
 
 def wrap_alignment(cls, out):
@@ -232,6 +263,9 @@ def run(ctx):
         for kind in ('pattern', 'anti'):
             for s in starts:
                 jobs.append(('sync', kind, (s - (1 << 19)) % WRAP, 1 << 20, True))
+    jobs.append(('sibling:sync:async', 'zero', 0, WRAP, True))
+    if not ctx.quick:
+        jobs += [('sibling:sync:sync', 'zero', 0, WRAP, True), ('sibling:async:async', 'zero', 0, WRAP, True)]
     # the natural-start job longer than 2^24 legitimately repeats after the wrap: cap it at 2^24
     jobs = [(c, k, s, min(n, WRAP), e) for (c, k, s, n, e) in jobs]
     res = parallel.pmap_chunks(_work, parallel.split(jobs, max(ctx.workers, len(jobs) // 4 or 1)), ctx.workers, ctx.seed)
@@ -261,7 +295,7 @@ def run(ctx):
         'distinct_nontrivial': windows,
         'rule': 'windows of consecutively issued ids from the real generate_id() of Server and AsyncServer, '
                 'with secrets.token_bytes / os.urandom replaced by adversarial sources {all-zero, all-ff, '
-                'base64-special pattern, period-2, counter-cancelling}; a wrap-alignment test (ids from counter 2^24-k reach the id of counter 0 after exactly k issues); starts %s (quick: windows of 2^18 centred on '
+                'base64-special pattern, period-2, counter-cancelling}; a wrap-alignment test (ids from counter 2^24-k reach the id of counter 0 after exactly k issues); sibling instances (server A issues an id, another instance issues 2^24-1 ids, the next id of A must differ); starts %s (quick: windows of 2^18 centred on '
                 'them plus 512-id windows at every 8th value of each counter byte; thorough: full 2^24 windows). '
                 'distinct_nontrivial counts windows (source x start x server class).' % [hex(s) for s in starts],
         'samples': [{'server': 'sync', 'source': 'zero', 'start': '0xfe0000', 'count': 1 << 18},
